@@ -643,6 +643,37 @@ pub fn generate(rng: &mut Rng, opts: &GenOpts, tag: &str) -> Value {
     root.insert("parameters".into(), Value::Object(params));
     let _ = n_segments;
     let mut root = Value::Object(root);
+    // nested overnight slots: a long slot that starts before and ends after the slot that starts
+    // last, and whose end - the latest instant of the instance - lies just behind a whole-day
+    // boundary of the planning horizon
+    if with_slots && rng.chance(1, 8) {
+        if let Ok(inst) = refmodel::Inst::parse(&root) {
+            let mut earliest = i64::MAX;
+            let mut latest = i64::MIN;
+            for i in 0..inst.trips.len() {
+                earliest = earliest.min(inst.start(refmodel::N::T(i)));
+                latest = latest.max(inst.end(refmodel::N::T(i)));
+            }
+            for i in 0..inst.slots.len() {
+                earliest = earliest.min(inst.start(refmodel::N::S(i)));
+                latest = latest.max(inst.end(refmodel::N::S(i)));
+            }
+            if earliest < latest {
+                let days = (latest - earliest + 86399) / 86400;
+                let long_end = earliest + days * 86400 + rng.range(1, 120) * 60;
+                let long_start = (latest - rng.range(0, 4) * 3600).min(long_end - 4 * 3600);
+                let l = rng.usize(0, nloc - 1);
+                let l2 = rng.usize(0, nloc - 1);
+                if let Some(ms) = root.get_mut("maintenanceSlots").and_then(|m| m.as_array_mut()) {
+                    ms.push(json!({"id": format!("{}.Mlong", tag), "location": locs[l], "start": iso(long_start), "end": iso(long_end), "trackCount": rng.range(1, 2)}));
+                    ms.push(json!({"id": format!("{}.Mnested", tag), "location": locs[l2], "start": iso(long_start + 1800), "end": iso(long_start + 1800 + rng.range(1, 4) * 1800), "trackCount": 1}));
+                    if rng.chance(1, 2) {
+                        rng.shuffle(ms);
+                    }
+                }
+            }
+        }
+    }
     // one instance in ten carries values at the far end of the format
     if rng.chance(1, 10) || std::env::var("VERIF_EXTREME_KIND").is_ok() {
         apply_extremes(rng, &mut root);
